@@ -40,10 +40,14 @@ JUNK = {
     # after an upgrade): raise ModuleNotFoundError / AttributeError, not UnpicklingError
     "junk-import": b"cno_such_module_c16\nNoSuchClass\n.",
     "junk-attr": b"csympy\nNoSuchNameC16\n.",
+    # well-formed streams whose reconstruction fails with an arbitrary exception (a class
+    # whose constructor changed its signature, a corrupted argument): ValueError / TypeError
+    "junk-value": b"cbuiltins\nint\n(S'notanint'\ntR.",
+    "junk-type": b"cbuiltins\nint\n(I1\nI2\nI3\ntR.",
 }
 # contents of pre-seeded entry files in SEQ (both tiers; every byte prefix is enumerated
 # by CRASH, the second kind of unloadable pickle is a start directory of SCHED/CRASH)
-SEED_KINDS = ["empty", "torn:half", "junk-import"]
+SEED_KINDS = ["empty", "torn:half", "junk-import", "junk-value"]
 DEPTH = {"quick": 3, "thorough": 4}
 BOUND = {"quick": 1, "thorough": 2}
 START_KINDS = {
@@ -89,7 +93,7 @@ class World:
             for k, e in enumerate(self.exprs)
         }
         # the alphabet must be what RULE says it is (else the exploration is vacuous)
-        if self.partner != {0: 1, 1: 0, 2: 3, 3: 2}:
+        if {k: j for k, j in self.partner.items() if k < self.n_core} != {0: 1, 1: 0, 2: 3, 3: 2}:
             msg = f"alphabet has no longer the intended colliding pairs: {self.partner}"
             raise HarnessError(msg)
         for k, j in self.partner.items():
